@@ -57,11 +57,11 @@ class Fail(Exception):
         self.klass, self.detail = klass, detail
 
 
-def build_form(spec):
+def build_form(spec, filename="f.bin"):
     parts = []
     for i, (kind, n) in enumerate(spec):
         content = [(65 + (i * 7 + j) % 26) for j in range(n)]
-        parts.append(C.Part(kind, f"n{i}", content, "f.bin" if kind == "file" else None))
+        parts.append(C.Part(kind, f"n{i}", content, filename if kind == "file" else None))
     return parts
 
 
@@ -78,13 +78,13 @@ def job_limits(job) -> report.JobResult:
     res = report.JobResult.new(job["name"])
     twin = job.get("twin", False)
     spec = FORMS[job["form"]]
-    boundary = b"bnd"
-    parts = build_form(spec)
+    boundary = job.get("boundary", b"bnd")
+    parts = build_form(spec, job.get("filename", "f.bin"))
     body = C.encode_form(parts, boundary, pad=job.get("pad", b""), eq=job.get("eq", b"="))
     nparts = len(spec)
     fbytes = sum(n for k, n in spec if k == "field")
     cutlists = [[], list(range(1, len(body))), [len(body) // 2], list(range(7, len(body), 7))]
-    if job.get("pad"):  # a chunk border at every position of the padded delimiters
+    if job.get("pad") or job.get("every_cut"):  # a chunk border at every position of the padded delimiters
         cutlists += [[i] for i in range(1, len(body))]
     shims = C.make_shims()
     factory = C.LenSink if job.get("sink") == "len" else C.Sink  # file_factory is a caller-supplied hook: also one that is falsy while empty
@@ -133,7 +133,8 @@ def job_limits(job) -> report.JobResult:
                 mp = m.eval(maxp_v, True).as_long()
                 mm = None if mem_none else m.eval(maxm_v, True).as_long()
                 wit = {"form": job["form"], "parts": spec, "cuts": cuts if len(cuts) < 6 else f"every {cuts[1] - cuts[0]}", "cuts_list": cuts,
-                       "max_form_parts": mp, "max_form_memory_size": mm, "sink": job.get("sink"), "pad_hex": job.get("pad", b"").hex(), "eq_hex": job.get("eq", b"=").hex()}
+                       "max_form_parts": mp, "max_form_memory_size": mm, "sink": job.get("sink"), "pad_hex": job.get("pad", b"").hex(), "eq_hex": job.get("eq", b"=").hex(),
+                       "boundary": job.get("boundary", b"bnd").decode("latin-1"), "filename": job.get("filename", "f.bin")}
                 with shims.off():
                     cp = concrete_limits(wit)
                 if klass is not None:
@@ -154,8 +155,8 @@ def job_limits(job) -> report.JobResult:
 
 def concrete_limits(w):
     spec = [tuple(x) for x in w["parts"]]
-    boundary = b"bnd"
-    body = bytes(C.encode_form(build_form(spec), boundary, pad=bytes.fromhex(w.get("pad_hex", "")), eq=bytes.fromhex(w.get("eq_hex", "3d"))))
+    boundary = w.get("boundary", "bnd").encode("latin-1")
+    body = bytes(C.encode_form(build_form(spec, w.get("filename", "f.bin")), boundary, pad=bytes.fromhex(w.get("pad_hex", "")), eq=bytes.fromhex(w.get("eq_hex", "3d"))))
     nparts = len(spec)
     fbytes = sum(n for k, n in spec if k == "field")
     over = nparts > w["max_form_parts"] or (w["max_form_memory_size"] is not None and fbytes > w["max_form_memory_size"])
@@ -313,6 +314,13 @@ def jobs(tier: str):
     for i in (2, 4):
         for tag, eq in (("blank-before-equals", b" ="), ("blanks-around-equals", b" = "), ("tab-before-equals", b"\t=")):
             out.append(dict(name=f"limits/form{i}/{tag}", kind="limits", form=i, eq=eq, weight=20))
+    # boundaries with characters that are special in a regular expression (RFC 2046 bchars), a chunk border at every position
+    for bnd in (b"x+y", b"what?", b"a.b(c)", b"----=_Part_1+2"):
+        out.append(dict(name=f"limits/form3/boundary:{bnd.decode()}", kind="limits", form=3, boundary=bnd, every_cut=True, weight=60))
+        out.append(dict(name=f"limits/form4/boundary:{bnd.decode()}", kind="limits", form=4, boundary=bnd, every_cut=True, weight=90))
+    # a file part whose filename parameter is present but EMPTY is still a file part (its bytes never count as field data)
+    for i in (2, 4):
+        out.append(dict(name=f"limits/form{i}/empty-filename", kind="limits", form=i, filename="", weight=20))
     for i in (2, 4, 9):  # forms with file parts
         out.append(dict(name=f"limits/form{i}/sink-falsy-while-empty", kind="limits", form=i, sink="len", weight=20))
     out.append(dict(name="twin/limits", kind="limits", form=1, twin=True))
